@@ -1,5 +1,7 @@
 import Req.Driver.Proto
 import Req.Client.HeaderSort
+import Req.H2.Fields
+import Req.Driver.WireUtil
 /-! Driver lanes of C16. -/
 namespace Req.Driver.L.C16
 open Req.Proto
@@ -16,8 +18,50 @@ def laneSort : List String → String
     | _, _ => "bad-op"
   | _ => "bad-op"
 
+def encodeFields (l : List (Bytes × Bytes)) : String :=
+  if l.isEmpty then "-" else ",".intercalate (l.map fun f => encodeHex f.1 ++ ":" ++ encodeHex f.2)
+
+def fieldLe (a b : Bytes × Bytes) : Bool :=
+  if a.1 == b.1 then Req.BStr.le a.2 b.2 else Req.BStr.le a.1 b.1
+
+def showFErr : Req.H2.FErr → String
+  | .nonAsciiHost => "err:outside"
+  | .invalidHost => "err:host"
+  | .invalidPath => "err:path"
+  | .invalidHeader => "err:header"
+
+/-- `c16fields <h2|h3> <method> <rawurl> <host> <hdr> <cl> <hasBody> <noBody> <gzip>` → the field
+list of the header block in canonical form: pseudo fields in order, regular fields sorted (their
+wire order follows Go's map iteration), canonical names of the LISTED regular fields in order. -/
+def laneFields : List String → String
+  | [fl, m, raw, host, hdr, cl, hb, nb, gz] =>
+    let fl? : Option Req.H2.Flavor :=
+      if fl == "h2" then some .h2 else if fl == "h3" then some .h3 else none
+    match fl?, decodeHex m, decodeHex raw, decodeHex host, Wire.decodeHdr hdr, decodeInt cl,
+          Wire.decodeBool hb, Wire.decodeBool nb, Wire.decodeBool gz with
+    | some fl, some m, some raw, some host, some hdr, some cl, some hb, some nb, some gz =>
+      match Req.Url.parse raw with
+      | .error _ => "bad-op"
+      | .ok u =>
+        let r : Req.H2.FReq := { method := m, url := u, host := host, header := hdr,
+                                 contentLength := cl, hasBody := hb, noBody := nb, addGzip := gz }
+        match Req.H2.fields fl r with
+        | .error e => showFErr e
+        | .ok fs =>
+          let pseudo := fs.filter fun f => f.1.head? == some 58
+          let regular := fs.filter fun f => f.1.head? != some 58
+          let order := Req.H1.orderList hdr
+          let listed := regular.filterMap fun f =>
+            if (Req.HeaderSort.lastIndex order f.1).isSome
+            then some (Req.Ascii.canonicalMIMEHeaderKey f.1) else none
+          "ok " ++ encodeFields pseudo ++ " " ++ encodeFields (regular.mergeSort fieldLe) ++ " " ++
+            encodeList listed
+    | _, _, _, _, _, _, _, _, _ => "bad-op"
+  | _ => "bad-op"
+
 def lanes : List (String × (List String → String)) := [
-  ("sort", laneSort)
+  ("sort", laneSort),
+  ("c16fields", laneFields)
 ]
 
 end Req.Driver.L.C16
